@@ -13,7 +13,8 @@ def i16(b, o):
     return struct.unpack_from(">h", b, o)[0]
 
 
-def parse_glyphs(tabs):
+def parse_loca(tabs):
+    """(format, numGlyphs, offsets, errors): loca read with the format head announces."""
     head, maxp, loca, glyf = tabs["head"], tabs["maxp"], tabs["loca"], tabs["glyf"]
     fmt = i16(head, 50)
     ng = u16(maxp, 4)
@@ -23,13 +24,21 @@ def parse_glyphs(tabs):
     elif fmt == 1:
         offs = list(struct.unpack(">%dL" % (len(loca) // 4), loca[: len(loca) // 4 * 4]))
     else:
-        return fmt, ng, [], [], ["indexToLocFormat %d" % fmt]
+        return fmt, ng, [], ["indexToLocFormat %d" % fmt]
     if len(offs) != ng + 1:
         errs.append("loca has %d entries, numGlyphs+1 is %d" % (len(offs), ng + 1))
     if any(a > b for a, b in zip(offs, offs[1:])):
         errs.append("loca not monotone")
     if offs and offs[-1] > len(glyf):
         errs.append("loca points beyond glyf (%d > %d)" % (offs[-1], len(glyf)))
+    return fmt, ng, offs, errs
+
+
+def parse_glyphs(tabs):
+    glyf = tabs["glyf"]
+    fmt, ng, offs, errs = parse_loca(tabs)
+    if not offs and errs:
+        return fmt, ng, [], [], errs
     glyphs = []
     for i in range(min(ng, len(offs) - 1)):
         d = glyf[offs[i] : offs[i + 1]]
